@@ -397,6 +397,8 @@ class Engine(Interp):
             body = self.prog.bodies.get(cand)
             if body is not None:
                 break
+        if body is not None and (body.path in self.opt.get("always_summarize", ()) and (body.path in self.summaries or body.key in self.summaries)):
+            return self.recursive_call(c, body)
         if body is not None and body.key not in self.no_inline and body.path not in self.no_inline:
             return self.inline_call(c, body)
         self.unmodelled[rname] += 1
